@@ -128,4 +128,18 @@ PROPS = {
         essential={"reader": {"read:success": 0.1, "read:failure": 0.2, "reached_spline_parsing": 0.3, "battery:evaluated": 0.2, "via:disk": 0.02, "via:C": 0.02}},
         assumptions=["exception texts of the reader are used only to classify cases as trivial/non-trivial, never for the verdict"],
     ),
+    "C05": dict(
+        level="exploration",
+        level_text="Fuzzing with the oracle inside the target: tables from C01's space through all three allocation paths (reader, fit, convolve), coordinates as arbitrary IEEE doubles (raw bit patterns, NaN payloads, infinities, denormals, knots and their neighbours, beyond both ends), every evaluation entry point (value, bitmask derivatives, gradient float/double, arbitrary derivative up to order 7, evaluator objects, call operators, C wrappers). ASan/UBSan/assertions must stay silent, outputs go to exactly-sized heap buffers with canaries, gradients must be refused exactly for ndim>=8, and every call must return (watchdog). Run as a fork-isolated rapidcheck property and as a coverage-guided libFuzzer target over the same decoder.",
+        level_note="Reads of uninitialised memory are not visible to ASan (MSan is unusable here); C01-C03 cover that through stack scribbling. System libraries are uninstrumented.",
+        technique="fuzzing (libFuzzer, structure-aware) plus fork-isolated property-based testing (rapidcheck) under ASan/UBSan",
+        engine="rapidcheck+libFuzzer",
+        units=[U("c05_memsafe", "c05_memsafe.cpp", quick=5000, thorough=600000, names=["memsafe"]),
+               U("c05_memsafe_fuzz", "c05_memsafe.cpp", variant="fuzz", kind="fuzz", flags=["-DVF_FUZZ"], quick=100000, thorough=30000000, names=["memsafe_fuzz"], max_len=2048)],
+        rule="a case = table (spec generator of C01 with all producers) + 6 coordinate vectors whose entries are drawn from {raw 64-bit pattern, NaN with payload, +-inf, denormal, "
+             "knot, knot neighbour, beyond the range, inside palette}. Non-trivial: the lookup succeeded and at least one coordinate is not a plain interior point (margin, knot, "
+             "neighbour or non-finite: NaN passes the range test); distinct = hash(spec, point).",
+        essential={"memsafe": {"coord:nan": 0.5, "coord:inf": 0.5, "coord:raw_bits": 0.5, "lookup_ok": 0.5, "evaluated": 0.5, "producer:P2_fit": 0.02, "producer:P3_convolve": 0.02}},
+        assumptions=["a libFuzzer timeout/oom artifact is load noise unless it reproduces"],
+    ),
 }
